@@ -843,7 +843,9 @@ vpackvg(VGROUP *vg,    /* IN: */
     UINT16ENCODE(bb, vg->extag); /* the vg's expansion tag */
     UINT16ENCODE(bb, vg->exref); /* the vg's expansion ref */
 
-    if (vg->flags) { /* save the flag and update version num */
+    /* A version-4 record always carries the flags word: vunpackvg() reads it whenever the
+       version field says VSET_NEW_VERSION, also when no flag is set. */
+    if (vg->flags || vg->version == VSET_NEW_VERSION) { /* save the flag and update version num */
         if (vg->version < VSET_NEW_VERSION)
             vg->version = VSET_NEW_VERSION;
 
